@@ -216,6 +216,7 @@ def _force_clean(sg):
 class Run:
     def __init__(self, ctx, case, mode, sg):
         self.ctx, self.case, self.mode, self.sg = ctx, case, mode, sg
+        self.keepref = bool(case.get("keepref"))
         self.mms, self.cl = [], set()
         self.fatal = False
         self.quirk = False
@@ -320,9 +321,21 @@ class Run:
                 self.mm("unexpected_exception", f"re-opening a handle on target {t} after {what} raised {type(e).__name__}: {e}")
                 return
 
-    @staticmethod
-    def doc(h, alias=False):
+    def doc(self, h, alias=False):
+        # keepref: hold on to the document object like user code that does `doc = project.doc` once
+        # (dropped whenever the job behind the handle is removed / re-keyed: its document moves)
+        if getattr(self, "keepref", False):
+            if "docref" not in h:
+                h["docref"] = h["obj"].document if alias else h["obj"].doc
+            return h["docref"]
         return h["obj"].document if alias else h["obj"].doc
+
+    def drop_refs(self, t=None):
+        for tt, hs in enumerate(self.handles):
+            if t is None or tt == t:
+                for h in hs:
+                    if isinstance(h, dict):
+                        h.pop("docref", None)
 
     # ---- buffered blocks ------------------------------------------------------
     def open_block(self, kind, arg):
@@ -636,6 +649,7 @@ class Run:
         return None
 
     def lifecycle(self, name, op, t, h):
+        self.drop_refs(t)  # the job's document object is replaced by remove()/re-key
         job = h["obj"]
         in_block = bool(self.stack)
         if name == "job_clear":
@@ -1052,10 +1066,20 @@ def cases(draw, max_ops=30):
             ev["arg"] = draw(st.sampled_from([0, 1, 64, 4096, 100000]))
         evs.append(ev)
     evs.sort(key=lambda e: e["pos"])
+    init = draw(st.lists(documents, min_size=nt + 1, max_size=nt + 1))
+    for op in ops:
+        # whole-document assignments back to the initial content / to the empty document
+        if op["op"] in ("assign_doc", "reset"):
+            r = draw(st.integers(0, 3))
+            if r == 0:
+                op["m"] = {}
+            elif r == 1:
+                op["m"] = json.loads(json.dumps(init[op["t"] % (nt + 1)]))
     return {
         "targets": nt,
+        "keepref": draw(st.booleans()),
         "nh": draw(st.sampled_from([1, 2, 3, 3])),
-        "init": draw(st.lists(documents, min_size=nt + 1, max_size=nt + 1)),
+        "init": init,
         "copy_after_doc": draw(st.booleans()),
         "ops": ops,
         "mode_R": evs,
@@ -1072,6 +1096,7 @@ ALPHABET = [
     {"op": "update", "m": {"k": 1.0, "x": 2}},
     {"op": "assign_doc", "m": {"k": 1}},
     {"op": "setdefault", "k": "x", "v": [0]},
+    {"op": "assign_doc", "m": {}},
 ]
 
 
@@ -1092,6 +1117,16 @@ def _c(ops, **kw):
 
 
 CONSTRUCTED = [
+    # a document reference taken once (`doc = project.doc`) is used on both sides of a whole-document
+    # assignment that restores the content the block started from (project document, then job document)
+    {"targets": 1, "keepref": True, "nh": 1, "init": [{}, {}], "copy_after_doc": False, "mode_R": [], "capacity": None, "ops": [
+        {"op": "setitem", "t": 1, "h": 0, "k": "a", "v": 1}, {"op": "assign_doc", "t": 1, "h": 0, "m": {}},
+        {"op": "setitem", "t": 1, "h": 0, "k": "b", "v": 2}, {"op": "setitem", "t": 1, "h": 0, "k": "c", "v": {"d": [1, 2]}}]},
+    {"targets": 1, "keepref": True, "nh": 2, "init": [{"x": 1}, {"p": [1]}], "copy_after_doc": False, "mode_R": [], "capacity": 0, "ops": [
+        {"op": "setitem", "t": 0, "h": 0, "k": "a", "v": 1}, {"op": "assign_doc", "t": 0, "h": 0, "m": {"x": 1}},
+        {"op": "setitem", "t": 0, "h": 0, "k": "b", "v": 2}, {"op": "read_call", "t": 0, "h": 1},
+        {"op": "setitem", "t": 1, "h": 1, "k": "q", "v": 1}, {"op": "assign_doc", "t": 1, "h": 1, "m": {"p": [1]}, "alias": True},
+        {"op": "list_append", "t": 1, "h": 1, "c": 0, "v": 2}]},
     # nested dict + list mutation through several handles, attribute access
     _c([
         {"op": "setitem", "t": 0, "h": 0, "k": "x", "v": {"y": [1, {"n": 2}], "foo": {}}},
